@@ -92,12 +92,17 @@ func (r tabixShim) End() int   { return r.end }
 
 // Add records the SAM record as having being located at the given chunk.
 func (i *Index) Add(r Record, c bgzf.Chunk, placed, mapped bool) error {
-	refName := r.RefName()
-	rid, ok := i.nameMap[refName]
-	if !ok {
-		rid = len(i.refNames)
-		i.refNames = append(i.refNames, refName)
-		i.nameMap[refName] = rid
+	var rid int
+	if placed {
+		// Only placed records have a reference to be named.
+		refName := r.RefName()
+		var ok bool
+		rid, ok = i.nameMap[refName]
+		if !ok {
+			rid = len(i.refNames)
+			i.refNames = append(i.refNames, refName)
+			i.nameMap[refName] = rid
+		}
 	}
 	shim := tabixShim{id: rid, start: r.Start(), end: r.End()}
 	return i.idx.Add(shim, internal.BinFor(r.Start(), r.End()), c, placed, mapped)
